@@ -9138,7 +9138,7 @@ TreeSequence_general_stat(TreeSequence *self, PyObject *args, PyObject *kwds)
     int polarised = 0;
     int span_normalise = 0;
     tsk_size_t num_windows;
-    unsigned int output_dim;
+    int output_dim;
     npy_intp *w_shape;
     tsk_flags_t options = 0;
     int err;
@@ -9146,12 +9146,16 @@ TreeSequence_general_stat(TreeSequence *self, PyObject *args, PyObject *kwds)
     if (TreeSequence_check_state(self) != 0) {
         goto out;
     }
-    if (!PyArg_ParseTupleAndKeywords(args, kwds, "OOIO|sii", kwlist, &weights,
+    if (!PyArg_ParseTupleAndKeywords(args, kwds, "OOiO|sii", kwlist, &weights,
             &summary_func, &output_dim, &windows, &mode, &polarised, &span_normalise)) {
         Py_XINCREF(summary_func);
         goto out;
     }
     Py_INCREF(summary_func);
+    if (output_dim < 0) {
+        PyErr_SetString(PyExc_ValueError, "output_dim must be non-negative");
+        goto out;
+    }
     if (!PyCallable_Check(summary_func)) {
         PyErr_SetString(PyExc_TypeError, "summary_func must be callable");
         goto out;
